@@ -8,7 +8,7 @@ LEVEL = "model_checking"
 BUDGET = {"quick": 240, "thorough": 2400}
 BOUNDS = {"quick": "bases from a list of 14 shapes (with/without authority, empty path, trailing slash, escapes incl. %2F/%3F/%23 with symbolic hex "
                    "digits, query, fragment) x references of <= 3 free code points and reference skeletons with <= 3 holes",
-          "thorough": "references of <= 4 free code points; more base shapes with holes"}
+          "thorough": "references of <= 3 free code points on every base, <= 4 on three bases"}
 ASSUMPTIONS = ["an empty query/fragment is treated as absent (yarl cannot represent 'defined but empty')",
                "bases without an authority whose path is empty or rootless are excluded: RFC 3986's merge is ill-defined for them and yarl "
                "follows urllib.parse.urljoin there (DESIGN.md section 7)",
@@ -130,6 +130,10 @@ def families(tier):
     for bn, bsk in BASES:
         for rn, rsk in refs:
             if q and bn in ("escaped-any", "hole") and rn in ("path3", "dots", "free2"):
+                continue
+            if rn in ("free4", "path4") and bn not in ("abs-full", "abs-nopath", "escaped-slash"):
+                continue
+            if not q and bn in ("escaped-any", "hole") and rn in ("free3",):
                 continue
             fams.append(Family("join/%s/%s" % (bn, rn), h_join, dict(base_sk=bsk, ref_sk=rsk)))
     for rn, rsk in refs[:6]:
